@@ -59,3 +59,49 @@ package crypto
 //@   props C01 C10
 //@   modifies nothing
 //@   ensures [C01:verify-beacon-binds-round-previous-and-signature] err == nil && typeis(b, "*github.com/drand/drand/v2/common.Beacon") ==> validSig(pubkey, digestOf(s, as(b, "*github.com/drand/drand/v2/common.Beacon").Round, as(b, "*github.com/drand/drand/v2/common.Beacon").PreviousSig), as(b, "*github.com/drand/drand/v2/common.Beacon").Signature)
+
+// ---- C20: scheme table ------------------------------------------------------------------------------------
+// The kyber library (pairing suites, threshold/auth schemes) is assumed not to touch any state of the functions
+// under contract; its results are unconstrained.
+//@ pure github.com/drand/kyber
+//@ pure (github.com/drand/kyber
+//@ pure (*github.com/drand/kyber
+
+//@ pred knownScheme(id) := id == "pedersen-bls-chained" || id == "pedersen-bls-unchained" || id == "bls-unchained-on-g1" || id == "bls-unchained-g1-rfc9380" || id == "bls-bn254-unchained-on-g1"
+
+//@ func NewPedersenBLSChained() (cs)
+//@   props C20
+//@   modifies nothing
+//@   ensures [C20:constructor-names-its-scheme] cs != nil && cs.Name == "pedersen-bls-chained"
+
+//@ func NewPedersenBLSUnchained() (cs)
+//@   props C20
+//@   modifies nothing
+//@   ensures [C20:constructor-names-its-scheme] cs != nil && cs.Name == "pedersen-bls-unchained"
+
+//@ func NewPedersenBLSUnchainedSwapped() (cs)
+//@   props C20
+//@   modifies nothing
+//@   ensures [C20:constructor-names-its-scheme] cs != nil && cs.Name == "bls-unchained-on-g1"
+
+//@ func NewPedersenBLSUnchainedG1() (cs)
+//@   props C20
+//@   modifies nothing
+//@   ensures [C20:constructor-names-its-scheme] cs != nil && cs.Name == "bls-unchained-g1-rfc9380"
+
+//@ func NewPedersenBLSBN254UnchainedOnG1Scheme() (cs)
+//@   props C20
+//@   modifies nothing
+//@   ensures [C20:constructor-names-its-scheme] cs != nil && cs.Name == "bls-bn254-unchained-on-g1"
+
+//@ func SchemeFromName(schemeName) (s, err)
+//@   props C20
+//@   modifies nothing
+//@   ensures [C20:unknown-scheme-name-is-rejected] !knownScheme(schemeName) ==> err != nil
+//@   ensures [C20:known-scheme-name-yields-that-scheme] err == nil ==> s != nil && s.Name == schemeName
+
+//@ func GetSchemeByID(id) (s, err)
+//@   props C20
+//@   modifies nothing
+//@   ensures [C20:unknown-scheme-id-is-rejected] id != "" && !knownScheme(id) ==> err != nil
+//@   ensures [C20:scheme-id-yields-that-scheme-empty-means-default] err == nil ==> s != nil && knownScheme(s.Name) && (id != "" ==> s.Name == id) && (id == "" ==> s.Name == "pedersen-bls-chained")
